@@ -9,6 +9,7 @@ package packet
 
 import (
 	"context"
+	"net"
 	"errors"
 	"fmt"
 	"io"
@@ -29,8 +30,9 @@ func (c20timeout) Timeout() bool   { return true }
 func (c20timeout) Temporary() bool { return true }
 
 // symbols: F frame, P frame whose processing fails, A EAGAIN, T timeout, R ECONNRESET, U unknown,
-// E EOF, B EBADF, C closed file, X unexpected EOF, Y closed pipe, a wrapped EAGAIN, r wrapped ECONNRESET
-const c20Transient = "ATRar"
+// E EOF, B EBADF, C closed file, X unexpected EOF, Y closed pipe, a wrapped EAGAIN, r wrapped ECONNRESET,
+// t a timeout net.Error that wraps another errno (net.OpError{Err: ETIMEDOUT})
+const c20Transient = "ATRart"
 const c20Terminal = "EBCXY"
 
 func c20err(sym byte, i int) error {
@@ -41,6 +43,8 @@ func c20err(sym byte, i int) error {
 		return os.NewSyscallError("recvfrom", syscall.EAGAIN)
 	case 'T':
 		return c20timeout{}
+	case 't':
+		return &net.OpError{Op: "read", Net: "packet", Err: syscall.ETIMEDOUT}
 	case 'R':
 		return syscall.ECONNRESET
 	case 'r':
@@ -275,9 +279,9 @@ func c20run(script string, consumerStopsOnCancel bool, withCancel bool) (cfg fun
 func init() { drv.Register("c20", verifC20) }
 
 func verifC20(c *drv.Ctx) {
-	alpha, maxLen, maxLenD1 := "FPATRUEBC", 5, 3
+	alpha, maxLen, maxLenD1 := "FPATtRUEBC", 5, 3
 	if c.Thorough() {
-		alpha, maxLen, maxLenD1 = "FPATRUEBCXYar", 5, 4
+		alpha, maxLen, maxLenD1 = "FPATtRUEBCXYar", 5, 4
 	}
 	c.R.Rule = fmt.Sprintf("every reachable read-outcome script of length <= %d over %q (terminal symbols only last) x {consumer drains to close, consumer stops on cancel}; "+
 		"each run through the real ReceivePackets under the scheduler: deviation bound 0 with the cancel event injected at every choice point for all scripts, bound 1 for scripts of length <= %d; "+
